@@ -250,6 +250,9 @@ def State.serializeTurtle (s : State) (nsOf : Nat → Option Nat) : State × Out
     the two passes still land in the original's prefix tables.  `canonf` = relabelling + sorting of the copy. -/
 def State.serializeLongTurtle (s : State) (nsOf : Nat → Option Nat) (canon : Bool)
     (canonf : List Triple → List Triple) : State × Out :=
+  -- `to_canonical_graph(self.store)` ITERATES the graph handed to the serializer: a `Dataset` yields quads, the
+  -- colouring's `for s, p, o in self.graph` raises — in `reset()`, before any pass has run: nothing is bound
+  if canon && s.isDataset then (s, .err) else
   let content := if canon then unionInto [] (canonf s.visible) else s.visible
   (preprocessTriples nsOf (preprocessTriples nsOf s content) content, .triples content)
 
@@ -643,5 +646,17 @@ def ReadOp.mayBind : ReadOp → Bool
 def State.runAll (s : State) : List ReadOp → State
   | [] => s
   | r :: rs => (s.run r).1.runAll rs
+
+/-! ### reads through a `Graph` VIEW of one context of the dataset -/
+
+/-- the `Graph` object `ds.get_context(g)` returns: a plain (not context-aware) graph on the SAME store whose own
+    context is `g`; it shares the store's prefix tables (and the dataset's namespace manager) -/
+def State.asView (s : State) (g : GName) : State :=
+  { s with dname := g, isDataset := false, defaultUnion := false }
+
+/-- a read applied to that view; the dataset keeps its own configuration -/
+def State.runView (s : State) (g : GName) (r : ReadOp) : State × Out :=
+  ({ ((s.asView g).run r).1 with dname := s.dname, isDataset := s.isDataset, defaultUnion := s.defaultUnion },
+   ((s.asView g).run r).2)
 
 end RV.C13
